@@ -21,7 +21,7 @@ theorem specU_succ {P : Prog} {rank : Nat → Nat} {f : Nat} (hacy : Acyclic P r
     simp only
     -- the node is new: mark it busy, run the body, install
     have hinvB : INV P s (id :: B) := by
-      refine ⟨hinv.epochPos, hstkB, hinv.srcTu, hinv.mapsInit, ?_, ?_, hinv.evalOk⟩
+      refine ⟨hinv.epochPos, hstkB, hinv.srcTu, hinv.mapsInit, ?_, ?_⟩
       · intro n r hn hnB; exact hinv.nodes n r hn (fun h => hnB (List.mem_cons_of_mem _ h))
       · intro n r hn hnB
         rcases List.mem_cons.1 hnB with e | e
@@ -85,7 +85,7 @@ theorem specU_succ {P : Prog} {rank : Nat → Nat} {f : Nat} (hacy : Acyclic P r
           · exact Or.inr hqi
           · simp only at hq'; rw [hlk1 q hqi, hq] at hq'; simp at hq'
       have hinv1 : INV P { s with derived := ainsert s.derived id (Rev.mk rev.val rev.tu s.epoch rev.deps) } (id :: B) := by
-        refine ⟨hinv.epochPos, hstkB, hinv.srcTu, hinv.mapsInit, ?_, ?_, ?_⟩
+        refine ⟨hinv.epochPos, hstkB, hinv.srcTu, hinv.mapsInit, ?_, ?_⟩
         · intro n r hn hnB
           have hni : n ≠ id := fun e => hnB (e ▸ List.mem_cons_self)
           simp only at hn; rw [hlk1 n hni] at hn
@@ -97,10 +97,6 @@ theorem specU_succ {P : Prog} {rank : Nat → Nat} {f : Nat} (hacy : Acyclic P r
             rcases List.mem_cons.1 hnB with e | e
             · exact absurd e hni
             · exact hinv.busyTv n r hn e
-        · intro n r hn
-          by_cases hni : n = id
-          · subst hni; exact ⟨v, R, hbig⟩
-          · simp only at hn; rw [hlk1 n hni] at hn; exact hinv.evalOk n r hn
       -- what the recorded dependencies are
       have hdepq : ∀ d, d ∈ rev.deps → ∀ q, d.node = .derived q →
           ∃ w, Read.node q w ∈ Ro ∧ rank q.fn < rank id.fn := by
@@ -125,8 +121,17 @@ theorem specU_succ {P : Prog} {rank : Nat → Nat} {f : Nat} (hacy : Acyclic P r
         simp only [DepFor] at h0
         obtain ⟨_, rq, hrq, hm, _⟩ := h0
         exact ⟨fun e => by rw [e] at hlt'; exact Nat.lt_irrefl _ hlt', rq, hrq, hm⟩
-      obtain ⟨s2, b, he2, hinv2, hev2, hstk2, hf2, ht2⟩ := anyDep_inc hU (rank id.fn) rev.deps
+      obtain ⟨s2, b, he2, hinv2, hev2, hstk2, hf2, ht2⟩ := anyDep_inc hU (rank id.fn) rev.deps []
         { s with derived := ainsert s.derived id (Rev.mk rev.val rev.tu s.epoch rev.deps) } hinv1
+        (fun d' hd' => by cases hd')
+        (fun D1 d D2 hdec q hq s' hev' hall => by
+          have hevs : Evolves (fun q => rank q.fn < rank id.fn ∨ q = id) s s' :=
+            hev1.trans (hev'.mono (fun q h => Or.inl h))
+          have hmi' : MapsInit s' := by
+            intro i hi; rw [hevs.srcs] at hi; rw [hevs.maps]; exact hinv.mapsInit i hi
+          exact dep_reached hbo (by rw [hevs.srcs, hevs.maps]; exact hbig) hoo
+            (fun rd hrd => (hdfo rd hrd).evolves hevs hok.tv_le) hok.stamps hmi' D1 d D2 hdec
+            (fun d' hd' => hall d' (by simpa using hd')) q hq)
         (fun d hd => Nat.lt_of_le_of_lt (hok.stamps d hd) hlt) hrk
         (fun d hd q hq => by
           obtain ⟨hqi, rq, hrq, _⟩ := hedge d hd q hq
